@@ -62,6 +62,9 @@
 #include "upipe/uref_block.h"
 #include "upipe/uref_block_flow.h"
 #include "upipe/uref_clock.h"
+#include "upipe/uref_pic_flow.h"
+#include "upipe/uref_pic.h"
+#include "upipe/uref_sound.h"
 #include "upipe/ubuf.h"
 #include "upipe/ubuf_block.h"
 #include "upipe/ubuf_block_mem.h"
@@ -128,6 +131,73 @@ static int track_control(struct uref_mgr *mgr, int cmd, va_list args)
 }
 
 #include "pipe_driver.h"
+
+/* ------------------------------------------------------------ flow tags
+ * (C04) With "env fltag on" every buffer fed by the application carries, in
+ * the attribute x.fl, the identity of the flow it belongs to: the flow
+ * definition that its input pipe last ACCEPTED (definition string, plus the
+ * picture size when there is one).  The sinks print the same identity for
+ * every flow definition they receive and the tag of every buffer, followed by
+ * "flnow" when that flow is still the one set on the input the buffer was fed to. */
+bool pd_fltag;
+static struct { char name[8]; char fl[80]; unsigned hsize, vsize; } fltab[MAXOBJ];
+
+const char *pd_fl_of(struct uref *fd)
+{
+    static char buf[80];
+    uint64_t h = 0;
+    if (fd != NULL && ubase_check(uref_pic_flow_get_hsize(fd, &h)))
+        snprintf(buf, sizeof(buf), "%s/h%" PRIu64, fd_name(fd), h);
+    else
+        snprintf(buf, sizeof(buf), "%s", fd_name(fd));
+    return buf;
+}
+
+void pd_fl_note(const char *name, struct uref *fd)
+{
+    int k = -1;
+    for (int i = 0; i < MAXOBJ; i++) {
+        if (!strcmp(fltab[i].name, name)) { k = i; break; }
+        if (k < 0 && !fltab[i].name[0]) k = i;
+    }
+    if (k < 0) return;
+    snprintf(fltab[k].name, sizeof(fltab[k].name), "%s", name);
+    snprintf(fltab[k].fl, sizeof(fltab[k].fl), "%s", pd_fl_of(fd));
+    uint64_t v = 0;
+    fltab[k].hsize = ubase_check(uref_pic_flow_get_hsize(fd, &v)) ? (unsigned)v : 0;
+    fltab[k].vsize = ubase_check(uref_pic_flow_get_vsize(fd, &v)) ? (unsigned)v : 0;
+}
+
+void pd_fl_tag(const char *name, struct uref *u)
+{
+    if (!pd_fltag || u == NULL) return;
+    for (int i = 0; i < MAXOBJ; i++)
+        if (!strcmp(fltab[i].name, name)) {
+            uref_attr_set_string(u, fltab[i].fl, UDICT_TYPE_STRING, "x.fl");
+            uref_attr_set_string(u, name, UDICT_TYPE_STRING, "x.flp");
+            return;
+        }
+}
+
+bool pd_fl_size(const char *name, unsigned *h, unsigned *v)
+{
+    for (int i = 0; i < MAXOBJ; i++)
+        if (!strcmp(fltab[i].name, name) && fltab[i].hsize) { *h = fltab[i].hsize; *v = fltab[i].vsize; return true; }
+    return false;
+}
+
+/* the buffer still belongs to the flow that is set on the input it was fed to */
+static bool pd_fl_current(struct uref *u)
+{
+    const char *fl, *flp;
+    if (!ubase_check(uref_attr_get_string(u, &fl, UDICT_TYPE_STRING, "x.fl")) ||
+        !ubase_check(uref_attr_get_string(u, &flp, UDICT_TYPE_STRING, "x.flp"))) return false;
+    for (int i = 0; i < MAXOBJ; i++)
+        if (!strcmp(fltab[i].name, flp)) return !strcmp(fltab[i].fl, fl);
+    return false;
+}
+
+void pd_fl_reset(void) { memset(fltab, 0, sizeof(fltab)); pd_fltag = false; }
 struct obj pipes[MAXOBJ];
 struct vsink sinks[MAXOBJ];
 struct vreq reqs[MAXOBJ];
@@ -324,7 +394,39 @@ static uint32_t digest(struct uref *uref, size_t *size_p)
 {
     size_t size = 0;
     uint32_t h = 2166136261u;
-    if (uref->ubuf == NULL || !ubase_check(uref_block_size(uref, &size))) { *size_p = 0; return 0; }
+    if (uref->ubuf == NULL) { *size_p = 0; return 0; }
+    if (!ubase_check(uref_block_size(uref, &size))) {
+        /* pictures: size = hsize * vsize, digest of the visible part of every plane;
+         * sound: size = samples, digest of every plane */
+        size_t hs, vs; uint8_t mp;
+        *size_p = 0;
+        if (ubase_check(uref_pic_size(uref, &hs, &vs, &mp))) {
+            *size_p = hs * vs;
+            const char *chroma = NULL;
+            while (ubase_check(uref_pic_plane_iterate(uref, &chroma)) && chroma != NULL) {
+                size_t stride; uint8_t hsub, vsub, mps; const uint8_t *buf;
+                if (!ubase_check(uref_pic_plane_size(uref, chroma, &stride, &hsub, &vsub, &mps)) ||
+                    !ubase_check(uref_pic_plane_read(uref, chroma, 0, 0, -1, -1, &buf))) return 0xdeadbeef;
+                for (size_t y = 0; y < vs / vsub; y++)
+                    for (size_t x = 0; x < hs / hsub * mps / mp; x++) h = (h ^ buf[y * stride + x]) * 16777619u;
+                uref_pic_plane_unmap(uref, chroma, 0, 0, -1, -1);
+            }
+            return h;
+        }
+        uint8_t ss;
+        if (ubase_check(uref_sound_size(uref, &hs, &ss))) {
+            *size_p = hs;
+            const char *channel = NULL;
+            while (ubase_check(uref_sound_plane_iterate(uref, &channel)) && channel != NULL) {
+                const uint8_t *buf;
+                if (!ubase_check(uref_sound_plane_read_uint8_t(uref, channel, 0, -1, &buf))) return 0xdeadbeef;
+                for (size_t i = 0; i < hs * ss; i++) h = (h ^ buf[i]) * 16777619u;
+                uref_sound_plane_unmap(uref, channel, 0, -1);
+            }
+            return h;
+        }
+        return 0;
+    }
     *size_p = size;
     int off = 0;
     while (off < (int)size) {
@@ -341,7 +443,11 @@ static uint32_t digest(struct uref *uref, size_t *size_p)
 static void print_payload(struct uref *uref, size_t size)
 {
     /* hex payload for small buffers (stream checks) */
-    if (size > 512) return;
+    size_t bs;
+    if (size > 512 || uref->ubuf == NULL || !ubase_check(uref_block_size(uref, &bs))) {
+        if (size <= 512 && uref->ubuf == NULL) printf(" hex=-");
+        return;
+    }
     printf(" hex=");
     if (size == 0) printf("-");
     int off = 0;
@@ -374,6 +480,8 @@ static void vsink_input(struct upipe *upipe, struct uref *uref, struct upump **u
     if (ubase_check(uref_flow_get_random(uref))) printf(" random");
     const char *sv;
     if (ubase_check(uref_attr_get_string(uref, &sv, UDICT_TYPE_STRING, "x.tag"))) printf(" tag=%s", sv);
+    if (ubase_check(uref_attr_get_string(uref, &sv, UDICT_TYPE_STRING, "x.fl")))
+        printf(" fl=%s%s", sv, pd_fl_current(uref) ? " flnow" : "");
     printf("\n");
     uref_free(uref);
 }
@@ -400,7 +508,10 @@ static int vsink_control(struct upipe *upipe, int command, va_list args)
     switch (command) {
     case UPIPE_SET_FLOW_DEF: {
         struct uref *fd = va_arg(args, struct uref *);
-        printf("sink %s set_flow_def %s %s\n", s->name, fd_name(fd), s->accept ? "accept" : "reject");
+        if (pd_fltag)
+            printf("sink %s set_flow_def %s %s fl=%s\n", s->name, fd_name(fd), s->accept ? "accept" : "reject", pd_fl_of(fd));
+        else
+            printf("sink %s set_flow_def %s %s\n", s->name, fd_name(fd), s->accept ? "accept" : "reject");
         if (!s->accept) return UBASE_ERR_INVALID;
         snprintf(s->fd, sizeof(s->fd), "%s", fd_name(fd));
         return UBASE_ERR_NONE;
@@ -632,6 +743,7 @@ static int exec_tokens(int nt, char **tok)
             if (!up) { ret(-1); return 0; }
             struct uref *fd = make_fd(tok[2]);
             int err = upipe_set_flow_def(up, fd);
+            if (ubase_check(err)) pd_fl_note(tok[1], fd);
             uref_free(fd);
             ret(err);
         } else if (!strcmp(c, "getfd") && nt >= 2) {
@@ -662,6 +774,7 @@ static int exec_tokens(int nt, char **tok)
             struct uref *u = make_block(data, size, nseg);
             free(data);
             uref_vx_set_id(u, id);
+            pd_fl_tag(tok[1], u);
             printf("input u%ld id=%u\n", uref_uid(u), id);
             upipe_input(up, u, NULL);
             ret(0);
@@ -684,6 +797,7 @@ static int exec_tokens(int nt, char **tok)
                 else if (!strcmp(tok[k], "start")) uref_block_set_start(u);
                 else if (!strcmp(tok[k], "random")) uref_flow_set_random(u);
             }
+            pd_fl_tag(tok[1], u);
             printf("input u%ld\n", uref_uid(u));
             upipe_input(up, u, NULL);
             ret(0);
